@@ -424,6 +424,18 @@ def check_law(case):
             if abs(fine_after - fine_fresh) > 1e-7:
                 dis.append({"clause": "RequestedError", "kind": obj[0], "detail": "Path(M, %s): length(error=1e-7) = %r after length(error=1e-2, min_depth=0) = %r on the same path; a fresh path gives %r" % (
                     obj, fine_after, coarse, fine_fresh)})
+            # ... and with the coarse error alone (same default depth): the cached answer is reused only when it is at least as fine
+            p3 = svg.Path(svg.Move(None, svg.Point(x.start)), copy(x))
+            coarse3 = p3.length(error=1.0)
+            fine3 = p3.length(error=1e-9)
+            fresh3 = svg.Path(svg.Move(None, svg.Point(x.start)), copy(x)).length(error=1e-9)
+            if abs(fine3 - fresh3) > 1e-9 * max(1.0, fresh3):
+                dis.append({"clause": "RequestedError", "kind": obj[0], "detail": "Path(M, %s): length(error=1e-9) = %r after length(error=1.0) = %r on the same path; a fresh path gives %r" % (
+                    obj, fine3, coarse3, fresh3)})
+            # the map given as text
+            Ls = (copy(x) * "scale(3)").length(error=3 * e)
+            if abs(Ls - 3 * L) > 3 * tol:
+                dis.append({"clause": "Invariance", "transform": "'scale(3)' as text", "kind": obj[0], "detail": "length %r of %s becomes %r under the string 'scale(3)' (expected %r)" % (L, obj, Ls, 3 * L)})
     except engine.CaseTimeout:
         raise
     except Exception as ex:
